@@ -281,14 +281,14 @@ def gen(chk):
         for _ in range(reps_walk):
             st = rng.choice(names)
             cases.append(((N, layouts, nprocs, st, make_walk(rng, names, st), rng.choice('fc'), rng.randrange(10 ** 6)), fam))
-    per_grid = 6 if quick else 14
+    per_grid = 10 if quick else 40
     for (n0, n1) in grids(nmax):
         for _ in range(per_grid):
             add(fullsim_case(rng, n0, n1), 'fullsim')
         for k in range(len(UPSTREAM)):
-            for _ in range(2 if quick else 4):
+            for _ in range(3 if quick else 10):
                 add(upstream_case(rng, k, n0, n1), 'upstream%d' % k)
-    nrand = 600 if quick else 2600
+    nrand = 1500 if quick else 12000
     for _ in range(nrand):
         n0, n1 = rng.choice(grids(nmax))
         if rng.random() < 0.3:
@@ -568,15 +568,34 @@ def run():
                           'sw_step_wf_b / sw_int_wf_b (answer %s)' % (N, layouts, nprocs, info['topo'], info['axes'], cur, nxt, route, ok),
                           {'kind': 'certificate', 'theorem': 'c03_route_correct (sw_route_ok_b)',
                            'case': [N, layouts, nprocs, start, [list(s) for s in walk], dt, seed], 'route': [cur, nxt, route]}, no_input=True)
-    # cross-check of the extraction inside Coq
+    # cross-check of the extraction inside Coq: three fixed steps and a sample of this run's routes
+    def coq_list(l):
+        return '[' + ';'.join(str(x) for x in l) + ']'
+
+    def coq_node(tok):
+        h, dims, ax = [x.split() for x in tok.split(',')]
+        return '(%s, (%s, %s))' % (h[0], coq_list(dims), coq_list(ax))
+    sample_terms, sample_expect = [], []
+    for line, (ci, k) in zip(mlines, mkeys):
+        if len(sample_terms) >= 4:
+            break
+        head, bufs = line[len('swroute '):].split(';', 1)
+        n, topo, nodes = head.split('|')
+        nodes = [x for x in nodes.split('/')]
+        if len(line) > 500 or not (2 <= len(nodes) <= 3) or (ci + k) % 7 != 0:
+            continue
+        sample_terms.append('sw_run_route nat 99 %s %s %d %s [%s] [%s]'
+                            % (coq_list(n.split()), coq_list(topo.split()), len(n.split()) - 1, coq_node(nodes[0]),
+                               ';'.join(coq_node(x) for x in nodes[1:]), ';'.join(coq_list(b.split()) for b in bufs.split(';'))))
+        sample_expect.append(mres[(ci, k)])
     terms = ['sw_run_step nat 99 [2;2;2] [2;2] 2 ([0;2;1],[0;1]) ([0;2;1],[0]) [[0;2];[1;3];[4;6];[5;7]]',
              'sw_run_step nat 99 [3;2;2] [1;2] 2 ([2;1;0],[1]) ([1;2;0],[0;1]) [[0;4;8;2;6;10];[1;5;9;3;7;11]]',
              'sw_run_step nat 99 [3;2;2] [3;1] 2 ([0;2;1],[0]) ([0;1;2],[1]) [[0;2;1;3];[4;6;5;7];[8;10;9;11]]']
-    vals = core.coq_eval(terms, 'From Coq Require Import List. Import ListNotations. From PGV Require Import SwapperExec.', tag='c03')
+    vals = core.coq_eval(terms + sample_terms, 'From Coq Require Import List. Import ListNotations. From PGV Require Import SwapperExec SwapperRoute.', tag='c03')
     m2 = core.model(['swstep 2 2 2 | 2 2 | 0 , 0 2 1 , 0 1 / 1 , 0 2 1 , 0 ; 0 2 ; 1 3 ; 4 6 ; 5 7',
                      'swstep 3 2 2 | 1 2 | 0 , 2 1 0 , 1 / 1 , 1 2 0 , 0 1 ; 0 4 8 2 6 10 ; 1 5 9 3 7 11',
                      'swstep 3 2 2 | 3 1 | 0 , 0 2 1 , 0 / 1 , 0 1 2 , 1 ; 0 2 1 3 ; 4 6 5 7 ; 8 10 9 11'])
-    for v, m in zip(vals, m2):
+    for v, m in zip(vals, m2 + sample_expect):
         if v.replace('[', '').replace(']', ' ;').replace(';', ' ').split() != m.replace(';', ' ').split():
             raise core.BrokenCheck('extraction and vm_compute disagree: %s vs %s' % (v, m))
     chk.assumptions += ['numpy view/reshape/transpose/slice assignment semantics (read into gather form in ScatterStep.v / GatherStep.v)',
@@ -588,7 +607,7 @@ def run():
                            'groupings (2-D handler + 1-D handlers + serial handler [1]/[1,1]) accepted by the constructor; 3-D extents 1-7, 4-D extents 1-5, '
                            'process counts <= extents; walks of 1-6 transposes, buffer or not, float/complex; non-trivial = different layouts on more '
                            'than one rank; distinct = (shape, grouping, grid, source, dest, buffer, dtype)' % ((3, 3) if chk.tier == 'quick' else (4, 4)),
-                      extra={'rejected_by_constructor': rejected},
+                      extra={'rejected_by_constructor': rejected, 'coq_eval_cross_checks': len(terms) + len(sample_terms)},
                       uncovered=['the constructor\'s choice of topology axes is not modelled: the axes are recovered from the implementation\'s '
                                  'communicators (certificate) and validated by sw_step_wf_b / sw_int_wf_b on every step of every route taken',
                                  'that _compatibleLayout / getAxes imply sw_step_wf_b is checked per route (certificate), not proved',
